@@ -20,7 +20,8 @@ type C16Case struct {
 	// SameProps: every properties-carrying chunk repeats the same lc/lp/pb (a "new properties"
 	// chunk still implies a state reset); otherwise the properties rotate
 	SameProps bool `json:",omitempty"`
-	// Scheme 2/3/4: from one properties-carrying chunk to the next only pb / only lp / only lc changes
+	// Scheme 2/3/4: from one properties-carrying chunk to the next only pb / only lp / only lc changes;
+	// scheme 5: the first chunk is longer than the reader's dictionary
 	Scheme int `json:",omitempty"`
 }
 
@@ -61,14 +62,26 @@ func c16Build(kinds []int, sameProps bool, scheme ...int) (data []byte, plains [
 	if len(scheme) > 0 && c16Schemes[scheme[0]] != nil {
 		c16Props = c16Schemes[scheme[0]]
 	}
+	// scheme 5: the first chunk is long (about 5200 bytes of 0xFF: more than the reader's 4 KiB
+	// dictionary, so its ring buffer has wrapped, and the last byte has all top bits set) - every
+	// later reset happens in a reader that is no longer in its initial state
+	longFirst := len(scheme) > 0 && scheme[0] == 5
 	pi := 0
 	for i, k := range kinds {
 		kind := ref.ChunkKind(k)
 		offsets = append(offsets, len(g.Out))
 		var plain []byte
 		var err error
-		switch kind {
-		case ref.CRaw, ref.CRawReset:
+		switch {
+		case longFirst && i == 0 && (kind == ref.CRaw || kind == ref.CRawReset):
+			plain, err = g.Add(ref.ChunkSpec{Kind: kind, Raw: bytes.Repeat([]byte{0xFF}, 5200)})
+		case longFirst && i == 0:
+			ops := []ref.Op{{Kind: ref.OpLit, Byte: 0xFF}}
+			for k := 0; k < 19; k++ {
+				ops = append(ops, ref.Op{Kind: ref.OpMatch, Len: 273, Dist: 1})
+			}
+			plain, err = g.Add(ref.ChunkSpec{Kind: kind, Ops: ops, Props: c16Props[0], Force: true})
+		case kind == ref.CRaw || kind == ref.CRawReset:
 			plain, err = g.Add(ref.ChunkSpec{Kind: kind, Raw: []byte(fmt.Sprintf("raw%d\xff", i))})
 		default:
 			win := len(g.Win.Buf)
@@ -80,7 +93,11 @@ func c16Build(kinds []int, sameProps bool, scheme ...int) (data []byte, plains [
 			ops := []ref.Op{{Kind: ref.OpLit, Byte: 1}, {Kind: ref.OpLit, Byte: 1}, {Kind: ref.OpLit, Byte: 2}, {Kind: ref.OpLit, Byte: 1},
 				{Kind: ref.OpLit, Byte: byte('A' + i)}, {Kind: ref.OpLit, Byte: 'a'}, {Kind: ref.OpLit, Byte: byte('A' + i)}}
 			if win >= 3 {
-				ops = append(ops, ref.Op{Kind: ref.OpMatch, Len: 3, Dist: uint32(win + 1)}) // reaches into the previous chunk
+				dist := win + 1
+				if longFirst && dist > 3000 {
+					dist = 3000 // stay inside the 4 KiB dictionary the streams are decoded with
+				}
+				ops = append(ops, ref.Op{Kind: ref.OpMatch, Len: 3, Dist: uint32(dist)}) // reaches into the previous chunk
 			} else {
 				ops = append(ops, ref.Op{Kind: ref.OpMatch, Len: 2, Dist: 2})
 			}
@@ -319,6 +336,9 @@ func runC16(r *core.Run) {
 				if ref.ChunkKind(k) == ref.CLZMAProps || ref.ChunkKind(k) == ref.CLZMAFull {
 					np++
 				}
+			}
+			if len(pref) <= depth-2 {
+				cases = append(cases, C16Case{Kinds: append([]int(nil), pref...), Scheme: 5})
 			}
 			if np >= 2 && len(pref) <= depth-1 {
 				for sc := 2; sc <= 4; sc++ {
